@@ -50,7 +50,7 @@ pub fn batches(prop: &str, tier: &str) -> Vec<(&'static str, u64)> {
         "C11" => vec![("crash", t(64_000)), ("caught-user-panics", t(100_000))],
         "C18" => vec![("permute", t(60_000)), ("reroute", t(40_000)), ("two-mocks", t(40_000)), ("relabel", t(40_000)), ("mixed", t(40_000))],
         "C16" => vec![("fault-free", t(120_000)), ("faults", t(40_000)), ("executor", t(60_000))],
-        "C15" => vec![("fault-free", t(120_000)), ("faults", t(40_000)), ("helper-race", t(40_000))],
+        "C15" => vec![("fault-free", t(120_000)), ("faults", t(40_000)), ("helper-race", t(40_000)), ("fmt-supertraits", t(4_000))],
         "C12" => vec![("fault-free", t(120_000)), ("faults", t(60_000))],
         "C09" => vec![("lifecycle", t(200_000))],
         "C13" => vec![("lending", t(50_000)), ("long-chains", t(150))],
@@ -182,6 +182,17 @@ pub fn generate(prop: &str, base_seed: u64, batch: &str, run: u64) -> Scenario {
         "C11" => crate::crash::gen_c11(base_seed, batch, run, &mut rng),
         "C18" => crate::twin::gen_c18(base_seed, batch, run, &mut rng),
         "C16" => crate::twin::gen_c16(base_seed, batch, run, &mut rng),
+        "C15" if batch == "fmt-supertraits" => Scenario {
+            prop: "C15".into(),
+            base_seed,
+            run,
+            batch: batch.to_string(),
+            config: Config::default(),
+            config2: None,
+            threads: vec![],
+            sched: SchedSpec { fine: false, strategy: Strategy::RoundRobin, seed: 0, sites: 0, choices: vec![] },
+            knobs: vec![("fmt_seed".into(), (rng.next() >> 1) as i64)],
+        },
         "C15" => crate::twin::gen_c15(base_seed, batch, run, &mut rng),
         "C12" => crate::owning::gen_c12(base_seed, batch, run, &mut rng),
         "C09" => crate::lifeworld::gen_c09(base_seed, batch, run, &mut rng),
@@ -344,6 +355,8 @@ pub fn check_in_process(scn: &Scenario) -> Checked {
         "C11" => crate::crash::check_c11(scn),
         "C18" => crate::twin::check_c18(scn),
         "C16" => crate::twin::check_c16(scn),
+        #[cfg(feature = "stdworld")]
+        "C15" if scn.batch == "fmt-supertraits" => crate::twin::check_c15_fmt(scn),
         "C15" => crate::twin::check_c15(scn),
         "C12" => crate::owning::check_c12(scn),
         "C09" => crate::lifeworld::check_c09(scn),
